@@ -60,6 +60,10 @@ DROPPED = [
     "Plan::satisfy / Satisfaction::try_completing: `xs.iter().map(f).collect::<Option<Vec<_>>>()` and `xs.into_iter().fold(init, f)` are replaced "
     "(R4) by the std wrappers slice_iter_map_collect_option / vec_into_iter_fold whose trusted contracts are the std semantics (fold: stated as "
     "the theorem 'a step that appends one element yields the pointwise image, in order')",
+    "Plan::satisfy is judged in BOTH of its shapes (rewrite `either`): the Builder fold with push_slice (up to a464895d) and the call of "
+    "util::witness_to_scriptsig (after the D3 repair), the latter consumed through the contract proved in unit c01_wrappers (one push per element "
+    "in order, minimal pushes; precondition: non-final elements <= 73 bytes, final <= 520); ghost asserts relate the completed Vec<Vec<u8>> to "
+    "max_len of the placeholders (R10)",
     "util::witness_size: the generic `T: ItemSize` is specialised to Placeholder<Pk> (what every call site passes) and "
     "`wit.iter().map(T::size).sum::<usize>()` is replaced (R9) by the stub sum_sizes carrying: the sum of `size()` over the slice, with the verified "
     "per-item contract of `size()` folded in (sum >= sum of the per-item bounds)",
@@ -295,6 +299,7 @@ pub open spec fn pushes_len(ps: Seq<Push>) -> int decreases ps.len() { if ps.len
 // BIP62 rule 3 / CheckMinimalPush: the shortest encoding of the element is used
 pub open spec fn has_opcode(d: Seq<u8>) -> bool { d.len() == 0 || (d.len() == 1 && (1 <= d[0] <= 16 || d[0] == 0x81)) }
 pub open spec fn minimal_push(p: Push) -> bool { if p.data.len() == 0 { true } else { p.direct == !has_opcode(p.data) } }
+pub open spec fn all_minimal(ps: Seq<Push>) -> bool { forall|i: int| 0 <= i < ps.len() ==> minimal_push(#[trigger] ps[i]) }
 pub open spec fn datas(ps: Seq<Push>) -> Seq<Seq<u8>> { Seq::new(ps.len(), |i: int| ps[i].data) }
 pub open spec fn views(w: Seq<Vec<u8>>) -> Seq<Seq<u8>> { Seq::new(w.len(), |i: int| w[i]@) }
 pub open spec fn direct_pushes(w: Seq<Seq<u8>>) -> Seq<Push> { Seq::new(w.len(), |i: int| Push { data: w[i], direct: true }) }
@@ -917,9 +922,49 @@ def plan(vf):
 
 
 
+def witness_to_scriptsig_fn(vf, elem_max=73, assumed=False):
+    """util::witness_to_scriptsig: proved in unit c01_wrappers, consumed (assumed=True, same contract text) by Plan::satisfy here."""
+    from units.c05_types import for_to_index_loop
+    inv = ("                forall|j: int| 0 <= j < witness@.len() - 1 ==> (#[trigger] witness@[j])@.len() <= %d,\n"
+           "                witness@.len() > 0 ==> witness@[witness@.len() - 1]@.len() <= 520,\n"
+           "                b@.len() == i, i <= witness@.len(),\n"
+           "                forall|j: int| 0 <= j < i ==> (#[trigger] b@[j]).data == witness@[j]@ && minimal_push(b@[j]),") % elem_max
+    vf.fn(UTIL, "fn:witness_to_scriptsig", props=("C01", "C11"), assumed=assumed, contract=Contract(
+        requires=["forall|j: int| 0 <= j < witness@.len() - 1 ==> (#[trigger] witness@[j])@.len() <= %d" % elem_max,
+                  "witness@.len() > 0 ==> witness@[witness@.len() - 1]@.len() <= 520"],
+        ensures=[Clause("one_push_per_element_in_order", ("C01",), "datas(r.pushes()) =~= views(witness@)"),
+                 Clause("pushes_are_minimal", ("C01",), "all_minimal(r.pushes())")]),
+        rewrites=[for_to_index_loop("for (i, wit) in", "witness", "wit", "i", True, inv, "witness.len() - i"),
+                  lit("R10", "let wit = &witness[i];", "let wit = &witness[i];\n            " + FACTS),
+                  lit("R7", "script::read_scriptint(wit)", "script::read_scriptint(wit.as_slice())"),
+                  lit("R7", "<&PushBytes>::try_from(", "push_bytes_try_from("), prologue()])
+
+
+def either(name, shapes):
+    """Shape-tolerant rewrite: `shapes` = [(probe_text, [rewrites])]; the rewrites of the FIRST shape whose probe occurs in the
+    text are applied (all of them must then apply); no shape present => None (anchor lost, UNDECIDED)."""
+    @rule(name)
+    def rw(text):
+        for probe, rws in shapes:
+            if re.search(r"\s*".join(re.escape(t) for t in probe.split()), text):
+                for r in rws:
+                    text = r(text)
+                    if text is None:
+                        return None
+                return text
+        return None
+    return rw
+
+
 COMPLETE_CLOSURE = ("|placeholder: &Placeholder<Pk>| -> (o: Option<Vec<u8>>) requires sizes_hold(*placeholder, stfr) "
                     "ensures opt_bytes(o) == spec_complete(*placeholder, stfr) { placeholder.satisfy_self(stfr) }")
 GHOST_COMPLETE = "Ghost(|p: Placeholder<Pk>| spec_complete(p, stfr))"
+
+
+LEN_HINT = ("proof { assert forall|j: int| 0 <= j < stack@.len() implies (#[trigger] stack@[j])@.len() <= max_len(self.template@[j]) by "
+            "{ assert(stack@[j]@ == spec_complete(self.template@[j], stfr)->Some_0); } }")
+SH_HINT = ("proof { assert forall|j: int| 0 <= j < stack@.len() - 1 implies (#[trigger] stack@[j])@.len() <= 73 by "
+           "{ assert(stack@[j]@ == spec_complete(self.template@[j], stfr)->Some_0); } }")
 
 
 def plan_satisfy(vf):
@@ -954,13 +999,27 @@ def plan_satisfy(vf):
         ens.append(Clause("scriptsig." + k, ("C01", "C17"), ok(k, "datas(r->Ok_0.1.pushes()) =~= expected_scriptsig(%s, %s)" % (D, W))))
     ens.append(Clause("segwit_scriptsig_is_the_unsigned_one", ("C01",), "is_segwit(%s) ==> r is Ok ==> forall|i: int| 0 <= i < r->Ok_0.1.pushes().len() ==> (#[trigger] r->Ok_0.1.pushes()[i]).direct" % D))
     ens.append(Clause("legacy_pushes_are_minimal", ("C01", "C17"), "!is_segwit(%s) ==> r is Ok ==> forall|i: int| 0 <= i < r->Ok_0.1.pushes().len() ==> minimal_push(#[trigger] r->Ok_0.1.pushes()[i])" % D))
+    witness_to_scriptsig_fn(vf, assumed=True)
+    vf.trust("util::witness_to_scriptsig (assumed contract)", "proved in unit c01_wrappers from the same contract text")
     with vf.block("impl<Pk: MiniscriptKey + ToPublicKey> Plan<Pk>"):
         vf.fn(PLAN, PLAN_IMPL + "/fn:satisfy", qual="Plan", props=("C01", "C17", "C02", "C11"), contract=Contract(
+            # helper preconditions, from witness_to_scriptsig's assertions: in a plan for a legacy output every placeholder completes to at most
+            # a signature's length (keys 33 / 65, ECDSA signatures <= 73, preimages 32; no taproot items) and the P2SH redeem script is <= 520
+            # bytes (Legacy context rule, checked by Sh::new)
             requires=["forall|i: int| 0 <= i < %s.len() ==> sizes_hold(#[trigger] %s[i], stfr)" % (T, T),
-                      "forall|i: int| 0 <= i < %s.len() ==> max_len(#[trigger] %s[i]) < 0x1_0000_0000" % (T, T)],
+                      "!is_segwit(%s) ==> forall|i: int| 0 <= i < %s.len() ==> max_len(#[trigger] %s[i]) <= 73" % (D, T, T),
+                      "%s matches Descriptor::Sh(sh) ==> sh.inner matches ShInner::Ms(m) ==> spec_encode(m).len() <= 520" % D],
             ensures=ens),
-            rewrites=[lit("R7", "use bitcoin::blockdata::script::Builder;", ""),
-                      lit_ws("R4", collect_old, collect_new), lit_ws("R4", fold_old, fold_new), prologue()])
+            rewrites=[lit_ws("R4", collect_old, collect_new),
+                      lit_ws("R10", ".ok_or(Error::CouldNotSatisfy)?;", ".ok_or(Error::CouldNotSatisfy)?;\n        " + LEN_HINT),
+                      either("R4/R7-legacy-scriptsig", [
+                          # shape up to a464895d: Builder fold with push_slice
+                          (".fold(Builder::new(),", [lit("R7", "use bitcoin::blockdata::script::Builder;", ""), lit_ws("R4", fold_old, fold_new)]),
+                          # shape after the D3 repair: witness_to_scriptsig (contract proved in unit c01_wrappers)
+                          ("witness_to_scriptsig(&stack)", [sub("R7", r"witness_to_scriptsig\(&stack\)", "witness_to_scriptsig(stack.as_slice())"),
+                                                             lit_ws("R10", "stack.push(redeem_script.into_bytes());", "stack.push(redeem_script.into_bytes());\n                " + SH_HINT)]),
+                      ]),
+                      prologue()])
     try_completing(vf)
 
 
